@@ -7,8 +7,8 @@ import re
 from .. import calg
 from ..pymodel import package
 from ..ratemodel import model as ratemodel, SELF
-from ..valueflow import Flow, as_map, lower, match, V, show, simp, walk
-from .c05 import REF, arms_for, variant_text, COEFF
+from ..valueflow import Flow, acc_as_comp, as_map, lower, match, V, show, simp, walk
+from .c05 import REF, arms_for, variant_text, COEFF, _about_law
 from .c10 import tables, grain_methods, GRAIN_CLASSES, delegated_types
 from .c11 import name_hole
 
@@ -21,7 +21,8 @@ EXPLANATION = (
     "terminated record per reaction; R5 sibling laws: for every format class and database code, the native class either refuses the exported type "
     "or its template is algebraically the law the format class uses (symbols unified through the registry names), including grain-delegated types; "
     "R6 export wiring: Network.export writes reactions.naunet in format 'naunet' on every path that continues to the configuration and sources, NetworkConfiguration records exactly that file/format and exports "
-    "binding energies / yields of every surface species, and 'naunet' maps to the class whose __format__ wrote the file.")
+    "binding energies / yields of every surface species, and 'naunet' maps to the class whose __format__ wrote the file; R10 BaseConfiguration.content writes each "
+    "of those tables (binding_energy, photon_yield, rate_modifier, ode_modifier, files, formats) whole -- the attribute, a copy, or an unfiltered key-by-key re-spelling.")
 ASSUMPTIONS = [
     "equality 'to printed precision' of particular numbers is a property of Python's float formatting, not decided",
     "blank-line handling of the reader is C07.R1",
@@ -32,6 +33,7 @@ RFILE = "naunet/reactions/reaction.py"
 NET = "naunet/network.py"
 CONF = "naunet/configuration.py"
 WRITER_FIELDS = ["idxfromfile", "REACTANTS", "PRODUCTS", "alpha", "beta", "gamma", "temp_min", "temp_max", "reaction_type", "source"]
+TAIL = ["alpha", "beta", "gamma", "temp_min", "temp_max", "reaction_type", "source"]      # the columns after the starred species middle
 NUMERIC = {"idxfromfile": "int", "alpha": "float", "beta": "float", "gamma": "float", "temp_min": "float", "temp_max": "float"}
 
 
@@ -48,6 +50,7 @@ def check(ctx):
     _r6(ctx, pkg)
     # the exported configuration carries the network's modifier tables whole (shared with C13.R7): a modifier dropped on the way into
     # naunet_config.toml makes the re-rendered project compute the unmodified law
+    _content_tables_whole(ctx, pkg, rm)
     from .c13 import _r7 as modifier_tables_whole
     ctx.absorb(modifier_tables_whole, "R9", only=lambda o: o.outcome != "MISSING")
 
@@ -109,6 +112,12 @@ def _split_src(v):
         break
     if x[0] == "item" and x[1][0] == "meth" and x[1][2] == "split" and x[1][3] == (("const", ","),):
         return x[1][1], x[2], wraps
+    # fields[k] of the split record kept whole in a local
+    if x[0] == "sub" and x[1][0] == "meth" and x[1][2] == "split" and x[1][3] == (("const", ","),) and x[2][0] == "const" and type(x[2][1]) is int:
+        return x[1][1], x[2][1], wraps
+    if x[0] == "sub" and x[1][0] == "meth" and x[1][2] == "split" and x[1][3] == (("const", ","),) and x[2][0] == "unop" and x[2][1] == "USub" \
+            and x[2][2][0] == "const" and type(x[2][2][1]) is int:
+        return x[1][1], -x[2][2][1], wraps
     return None, None, wraps
 
 
@@ -141,6 +150,11 @@ def _r1_r2(ctx, w, r):
                 got.append(show(seq)[:40])
         else:
             got.append(f"literal:{f[1]}")
+    # a column is understood when it is an attribute (chain) of the reaction, one of the two filled species lists or literal text
+    strange = [g for g in got if not (g in ("REACTANTS", "PRODUCTS") or g.startswith("literal:") or re.fullmatch(r"(self\.)?[A-Za-z_]\w*(\.[A-Za-z_]\w*)*", g))]
+    if got != WRITER_FIELDS and strange:
+        ctx.unrec("R1", "writer:field-order", W, f"column(s) of the written record are not understood: {strange[:3]} (record read as {got})")
+        return
     ctx.check(got == WRITER_FIELDS, "R1", "writer:field-order", W, "the record is idx, reactants, products, alpha, beta, gamma, tmin, tmax, type, source",
               expected=str(WRITER_FIELDS), found=str(got))
     if got != WRITER_FIELDS:
@@ -158,12 +172,21 @@ def _r1_r2(ctx, w, r):
             continue
         ln, k, wraps = _split_src(simp(f.value))
         if ln is None:
-            ctx.bad("R1", f"reader:{attr}", (RFILE, f.line), f"self.{attr} is not read from a field of the comma-split record", found=show(simp(f.value))[:100])
+            # not one field through converters.  Which fields of the record does the value depend on?  A value computed from ANOTHER column
+            # (or from several) is visibly not the inverse of the writer; a value in which no field can be seen is not understood.
+            want_k = 0 if attr == "idxfromfile" else TAIL.index(attr) - len(TAIL)
+            ks = {x[2] for x in walk(simp(f.value)) if isinstance(x, tuple) and len(x) == 3 and x[0] == "item" and isinstance(x[2], int)
+                  and x[1][0] == "meth" and x[1][2] == "split" and x[1][3] == (("const", ","),)}
+            if ks and ks != {want_k}:
+                ctx.bad("R1", f"reader:{attr}", (RFILE, f.line), f"self.{attr} is not read back from the one field the writer puts {attr} into: it is computed from field(s) {sorted(ks)} of the record",
+                        expected=f"field {want_k} through its converter", found=show(simp(f.value))[:100])
+            else:
+                ctx.unrec("R1", f"reader:{attr}", (RFILE, f.line), f"cannot trace self.{attr} to a field of the comma-split record: {show(simp(f.value))[:100]}")
             continue
         line = ln
         pos[attr] = (k, wraps, f)
     # expected positions (from the end, because of the starred middle)
-    tail = ["alpha", "beta", "gamma", "temp_min", "temp_max", "reaction_type", "source"]
+    tail = TAIL
     for i, attr in enumerate(tail):
         if attr in pos:
             k = pos[attr][0]
@@ -179,8 +202,12 @@ def _r1_r2(ctx, w, r):
         ok = False
         found = ""
         stripped = False
+        understood = False        # the value is a map over a slice of the starred middle of the split record
         if f is not None:
             v = simp(f.value)
+            if v[0] == "acc":
+                # the list was built by an explicit append loop: the comprehension it is equal to
+                v = acc_as_comp(r["flow"], v[1]) or v
             m = as_map(v) if v[0] == "comp" else None
             if m:
                 bv, body, base, ifs = m
@@ -189,8 +216,12 @@ def _r1_r2(ctx, w, r):
                 if b and b["star"] == ("star", 1, 9) or (b and isinstance(b["star"], tuple) and b["star"][0] == "star" and b["star"][1] == 1):
                     lo_v = b["lo"][1] if b["lo"][0] == "const" else None
                     hi_v = b["hi"][1] if b["hi"][0] == "const" else None
+                    understood = b["lo"][0] == "const" and b["hi"][0] == "const"
                     ok = (lo_v or 0) == lo and hi_v == hi
                 stripped = any(isinstance(x, tuple) and len(x) >= 3 and x[0] == "meth" and x[2] == "strip" and x[1] == bv for x in walk(body))
+        if f is not None and not understood:
+            ctx.unrec("R1", f"reader:{attr}:slice", (RFILE, f.line), f"cannot see which fields self.{attr} is built from: {show(simp(f.value))[:100]}")
+            continue
         ctx.check(ok, "R1", f"reader:{attr}:slice", (RFILE, f.line if f else r["fn"].lineno),
                   f"{attr} are read from the {hi - lo} fields the writer fills for them", expected=f"fields[{lo}:{hi}] after the index", found=found)
         ctx.check(stripped, "R2", f"reader:{attr}:strip", (RFILE, f.line if f else r["fn"].lineno), f"padded species names are stripped before they are parsed")
@@ -254,11 +285,18 @@ def _r4(ctx, pkg):
     rec = [f for f in writes if f.loops and any(isinstance(x, tuple) and len(x) == 4 and x[0] == "fmt" and x[1][0] == "elem" for x in walk(simp(f.value)))]
     nl = [f for f in writes if f.loops and simp(f.value[3][0]) in (("const", "\n"),)]
     ok = len(rec) == 1 and len(rec[0].loops) == 1 and simp(rec[0].loops[0].iter) == ("attr", SELF, "reaction_list") and not rec[0].guards
-    ctx.check(ok, "R4", "Network.write:one-record-per-reaction", (NET, fn.lineno), "every reaction of reaction_list is written once, in order, unconditionally",
-              found="; ".join(show(f.value)[:60] for f in rec))
+    if not rec or (len(rec) > 1 and all(f.guards for f in rec)):
+        # no write of a formatted loop element found / one write per branch: the way records are written is not understood
+        ctx.unrec("R4", "Network.write:one-record-per-reaction", (NET, fn.lineno), f"cannot find the single write of the formatted reaction inside the loop over the reactions ({len(rec)} candidates)")
+    else:
+        ctx.check(ok, "R4", "Network.write:one-record-per-reaction", (NET, fn.lineno), "every reaction of reaction_list is written once, in order, unconditionally",
+                  found="; ".join(show(f.value)[:60] for f in rec))
     g_ok = len(nl) == 1 and len(nl[0].guards) == 1 and nl[0].guards[0][1] is False and "krome" in show(nl[0].guards[0][0])
-    ctx.check(g_ok, "R4", "Network.write:terminator", (NET, fn.lineno), "each record of a non-KROME format is terminated by exactly one newline",
-              found="; ".join(f"{show(f.value)[:40]} guards {[(show(g)[:30], p) for g, p in f.guards]}" for f in nl))
+    if not nl:
+        ctx.unrec("R4", "Network.write:terminator", (NET, fn.lineno), "no separate write of the line terminator found in the loop: how records are terminated is not understood")
+    else:
+        ctx.check(g_ok, "R4", "Network.write:terminator", (NET, fn.lineno), "each record of a non-KROME format is terminated by exactly one newline",
+                  found="; ".join(f"{show(f.value)[:40]} guards {[(show(g)[:30], p) for g, p in f.guards]}" for f in nl))
 
 
 def _unify_env(regs, F):
@@ -301,6 +339,11 @@ def _r5(ctx, rm, pkg):
                 continue
             if fk == {"delegate"} and nk == {"delegate"}:
                 _grain_sibling(ctx, rm, regs, F, tval, key, where)
+                continue
+            # arms kept only because a dispatch condition could not be evaluated for this code say nothing about the code
+            open_ = sorted({show(c)[:70] for arms in (farms, narms) for _, extra in arms for c, _p in extra if not _about_law(c)})
+            if open_ and (len(fk) != 1 or len(nk) != 1):
+                ctx.unrec("R5", key, where, f"cannot decide which arm this code takes: condition(s) {open_} are not understood (format class {sorted(fk)}, native class {sorted(nk)})")
                 continue
             if fk == {"text"} and nk == {"delegate"}:
                 ctx.bad("R5", key, where, "the format class computes this type itself while the native class hands it to the grain model")
@@ -408,12 +451,94 @@ def render_reads_only(ctx, pkg, rule):
         ctx.ok(rule, "RenderCommand.handle renders the network as read", (RENDER_, h.lineno), f"no edit of {sorted(nets)} between Network(..) and the rendering")
 
 
+EXPORTED_TABLES = {"binding_energy": "_bindingenergy", "photon_yield": "_photonyield", "rate_modifier": "_ratemodifier", "ode_modifier": "_odemodifier",
+                   "files": "_filenames", "formats": "_formats"}
+
+
+def _content_tables_whole(ctx, pkg, rm):
+    """R10: the tables the configuration object holds reach naunet_config.toml WHOLE: what `content` stores under binding_energy / photon_yield /
+    rate_modifier / ode_modifier / files / formats is the stored attribute itself, a copy, or a key-by-key re-spelling ({str(k): v for k, v in
+    T.items()}) without a filter -- an entry dropped here (a yield / modifier of 0 by a truthiness test) silently gets the default law back on re-render.
+    One-expression helper functions of the module are read as the expression they return."""
+    ci = pkg.cls("BaseConfiguration")
+    fn = ci.methods.get("content")
+    if fn is None:
+        ctx.missing("R10", "BaseConfiguration.content", (CONF, ci.node.lineno), "the configuration writer vanished")
+        return
+    ctx.saw(CONF, "BaseConfiguration.content")
+    fl = Flow(fn, CONF, consts=rm.module_consts(CONF), resolver=lambda name: pkg.resolve("BaseConfiguration", name)[1] if name.startswith("_") and not name.startswith("__") else None)
+
+    def through_helpers(v, depth=0):
+        """f(T) with f a one-return function of this module -> its returned expression with the parameter bound"""
+        if depth < 3 and v[0] == "call" and v[1][0] == "global" and (CONF, v[1][1]) in pkg.functions and not v[3]:
+            callee = pkg.functions[(CONF, v[1][1])]
+            params = [a.arg for a in callee.args.args]
+            sub = Flow(callee, CONF, consts=rm.module_consts(CONF))
+            rets = [f for f in sub.facts if f.kind == "return"]
+            other = [f for f in sub.facts if f.kind not in ("return", "init")]
+            if len(rets) == 1 and not rets[0].guards and not other and len(params) == len(v[2]):
+                from ..valueflow import subst
+                return through_helpers(simp(subst(simp(rets[0].value), {("param", p_): a for p_, a in zip(params, v[2])})), depth + 1)
+        return v
+    n = 0
+    for f in fl.facts:
+        if f.kind != "store" or f.index is None or f.index[0] != "const" or f.index[1] not in EXPORTED_TABLES:
+            continue
+        key, attr = f.index[1], EXPORTED_TABLES[f.index[1]]
+        n += 1
+        T = ("attr", SELF, attr)
+        v = through_helpers(simp(f.value))
+        while v[0] == "copy" or (v[0] == "call" and v[1] in (("global", "dict"), ("global", "list")) and len(v[2]) == 1 and not v[3]):
+            v = v[1] if v[0] == "copy" else v[2][0]
+        k = f"BaseConfiguration.content[{key!r}]"
+        if v == T:
+            ctx.ok("R10", k, (CONF, f.line), f"self.{attr} is written whole")
+            continue
+        if v[0] == "comp" and len(v[3]) == 1:
+            tg, it, ifs = v[3][0]
+            src_ok = it in (T, ("meth", T, "items", (), ()))
+            if src_ok and ifs:
+                ctx.bad("R10", k, (CONF, f.line), f"entries of self.{attr} are filtered out on the way into naunet_config.toml ({'; '.join(show(c)[:50] for c in ifs)}): a value the filter "
+                        "rejects (0, 0.0, '' ..) is a setting the user made, and the re-rendered project silently computes with the default instead",
+                        expected=f"every entry of self.{attr}", found=show(v)[:120])
+                continue
+            if src_ok and not ifs:
+                ctx.ok("R10", k, (CONF, f.line), f"every entry of self.{attr} is written (keys re-spelled)")
+                continue
+        ctx.unrec("R10", k, (CONF, f.line), f"cannot see that self.{attr} reaches the configuration file whole: {show(v)[:120]}")
+    ctx.floor("R10", "exported tables written by BaseConfiguration.content", n, 6, (CONF, fn.lineno))
+
+
+def _refusal_propagates(ctx, pkg):
+    """A refused type stays an ERROR of the rendering: no `try` around a rateexpr(..) call in the renderer swallows the exception and goes
+    on with a substitute (every handler of such a try must end by raising).  Positive evidence only: a try statement that is there."""
+    TL = "naunet/templateloader.py"
+    ncalls = 0
+    units = [(ci.name, mname, fn) for ci in pkg.classes.values() if ci.file == TL for mname, fn in ci.methods.items()] + \
+        [("", name, fn) for (file, name), fn in pkg.functions.items() if file == TL]
+    for cname, mname, fn in units:
+        if True:
+            calls = [c for c in ast.walk(fn) if isinstance(c, ast.Call) and isinstance(c.func, ast.Attribute) and c.func.attr == "rateexpr"]
+            ncalls += len(calls)
+            for t in ast.walk(fn):
+                if not isinstance(t, ast.Try) or not any(c is x for st in t.body for x in ast.walk(st) for c in calls):
+                    continue
+                for h in t.handlers:
+                    reraises = bool(h.body) and isinstance(h.body[-1], ast.Raise)
+                    ctx.check(reraises, "R8", f"{cname}.{mname}:rateexpr refusal handled:{ast.unparse(h.type) if h.type else 'bare'}", (TL, h.lineno),
+                              "the handler re-raises" if reraises else
+                              "an exception raised by rateexpr(..) (a reaction type the class refuses) is caught and the rendering goes on with a substitute: "
+                              "the exported type is neither given its law nor refused with an error", expected="no handler / re-raise", found=ast.unparse(h)[:120])
+    ctx.floor("R8", "rateexpr call sites in the renderer", ncalls, 1, (TL, 0))
+
+
 def _r6(ctx, pkg):
     render_reads_only(ctx, pkg, "R7")
     # "... or is refused with an error": the renderer hands rateexpr()'s refusal on -- the expressions it emits are exactly
     # reac.rateexpr(..) of every reaction, nothing catches and substitutes (shared with C06.R1)
     from .c06 import _r1 as assignment_rule
     ctx.absorb(assignment_rule, "R8")
+    _refusal_propagates(ctx, pkg)
     fn = pkg.method("Network", "export")
     ctx.saw(NET, "Network.export")
     src = ast.unparse(fn)
@@ -422,7 +547,14 @@ def _r6(ctx, pkg):
     arg0 = w[0].args[0] if len(w) == 1 and w[0].args else None
     val0 = [ast.unparse(n.value) for n in ast.walk(fn) if isinstance(n, ast.Assign) and isinstance(arg0, ast.Name) and any(isinstance(t, ast.Name) and t.id == arg0.id for t in n.targets)]
     ok = len(w) == 1 and len(w[0].args) >= 2 and ast.unparse(w[0].args[1]) == "'naunet'" and len(val0) == 1 and re.fullmatch(r"\w+ / 'reactions\.naunet'", val0[0]) is not None
-    ctx.check(ok, "R6", "Network.export:reaction-file", (NET, fn.lineno), "export writes path/'reactions.naunet' in the 'naunet' format", found=ast.unparse(w[0]) if w else "")
+    # positive evidence of a wrong export: the format argument is another literal, or the file name is another literal
+    wrong_fmt = len(w) == 1 and len(w[0].args) >= 2 and isinstance(w[0].args[1], ast.Constant) and w[0].args[1].value != "naunet"
+    wrong_name = len(w) == 1 and len(val0) == 1 and re.fullmatch(r"\w+ / '[^']*'", val0[0]) is not None and not val0[0].endswith("/ 'reactions.naunet'")
+    if ok or wrong_fmt or wrong_name:
+        ctx.check(ok, "R6", "Network.export:reaction-file", (NET, fn.lineno), "export writes path/'reactions.naunet' in the 'naunet' format", found=ast.unparse(w[0]) if w else "")
+    else:
+        ctx.unrec("R6", "Network.export:reaction-file", (NET, fn.lineno), f"cannot see which file / format Network.export writes the reactions to ({len(w)} self.write calls"
+                  + (f": {ast.unparse(w[0])[:80]}, path = {val0[:2]}" if w else "") + ")")
     # ... on EVERY path that goes on to write the configuration and the sources (must-pass-through): the exchange file and the
     # generated code describe the same network also when the project directory already exists
     if len(w) == 1:
@@ -443,28 +575,51 @@ def _r6(ctx, pkg):
                                 return False        # an arm without the write falls through
                             if r is False:
                                 return False
-                        return True
-                    return False
+                        return "?" if "?" in res else True
+                    if isinstance(st, (ast.With, ast.Try)) and not getattr(st, "handlers", None):
+                        return dominating(st.body)  # `with ..:` / try-finally: the body runs
+                    return "?"                      # inside a loop / try-except / assignment: not understood
             return None
         dom = dominating(fn.body)
+        if dom == "?":
+            ctx.unrec("R6", "Network.export:reaction-file on every continuing path", (NET, w[0].lineno), "the write of reactions.naunet sits inside a statement whose paths are not understood")
+            dom = None
         later = [c for c in ast.walk(fn) if isinstance(c, ast.Call) and (ast.unparse(c.func) == "NetworkConfiguration" or (isinstance(c.func, ast.Attribute) and c.func.attr in ("render", "write") and
                                                                                                                   ast.unparse(c.func) != "self.write")) and c.lineno > w[0].lineno]
-        ctx.check(dom is True and len(later) >= 2, "R6", "Network.export:reaction-file on every continuing path", (NET, w[0].lineno),
-                  "every path that reaches the configuration/source rendering has (re)written reactions.naunet" if dom else
-                  "reactions.naunet is written only on some of the paths that go on to regenerate the configuration and sources: re-exporting into an existing project "
-                  "leaves the OLD reaction file next to NEW sources", expected="self.write(reaction_file, 'naunet') unconditionally before the configuration is written",
-                  found="write nested under a condition whose other arm continues")
+        if dom is not None:
+            ctx.check(dom is True and len(later) >= 2, "R6", "Network.export:reaction-file on every continuing path", (NET, w[0].lineno),
+                      "every path that reaches the configuration/source rendering has (re)written reactions.naunet" if dom else
+                      "reactions.naunet is written only on some of the paths that go on to regenerate the configuration and sources: re-exporting into an existing project "
+                      "leaves the OLD reaction file next to NEW sources", expected="self.write(reaction_file, 'naunet') unconditionally before the configuration is written",
+                      found="write nested under a condition whose other arm continues")
     ci = pkg.cls("NetworkConfiguration")
     init = ci.methods["__init__"]
     ctx.saw(CONF, "NetworkConfiguration.__init__")
-    isrc = ast.unparse(init)
-    ctx.check("self._filenames = ['reactions.naunet']" in isrc and "self._formats = ['naunet']" in isrc, "R6", "NetworkConfiguration:file/format", (CONF, init.lineno),
-              "the exported configuration names exactly the file and format Network.export wrote")
+    # by value: what is stored into the two attributes (a literal list, however it is spelled / named on the way)
+    fl = Flow(init, CONF, consts=ratemodel(ctx.tree).module_consts(CONF))
+    named = {}
+    for f in fl.facts:
+        if f.kind == "attrstore" and f.target in ("_filenames", "_formats") and f.extra.get("obj") == SELF:
+            named[f.target] = simp(f.value)
+    lits = {k: [e[1] for e in v[1]] if v[0] in ("list", "tuple") and all(e[0] == "const" for e in v[1]) else None for k, v in named.items()}
+    if lits.get("_filenames") is None or lits.get("_formats") is None:
+        ctx.unrec("R6", "NetworkConfiguration:file/format", (CONF, init.lineno), "cannot see the literal file / format lists the exported configuration records: "
+                  + "; ".join(f"{k} = {show(v)[:60]}" for k, v in named.items()))
+    else:
+        ctx.check(lits["_filenames"] == ["reactions.naunet"] and lits["_formats"] == ["naunet"], "R6", "NetworkConfiguration:file/format", (CONF, init.lineno),
+                  "the exported configuration names exactly the file and format Network.export wrote", expected="['reactions.naunet'] / ['naunet']",
+                  found=f"{lits['_filenames']} / {lits['_formats']}")
     rc = pkg.cls("Reaction")
     fm = rc.attrs.get("format")
-    ctx.check(fm is not None and ast.literal_eval(fm) == "naunet", "R6", "Reaction.format", (RFILE, rc.node.lineno), "'naunet' maps (via supported_reaction_class) to the class whose __format__ wrote the file")
+    try:
+        fmv = ast.literal_eval(fm) if fm is not None else None
+    except Exception:
+        fmv = None
+    if fmv is None:
+        ctx.unrec("R6", "Reaction.format", (RFILE, rc.node.lineno), "Reaction.format is not a literal")
+    else:
+        ctx.check(fmv == "naunet", "R6", "Reaction.format", (RFILE, rc.node.lineno), "'naunet' maps (via supported_reaction_class) to the class whose __format__ wrote the file", found=repr(fmv))
     # binding energies / yields of every surface species travel with the export
-    fl = Flow(init, CONF)
     stv = {f.target: f for f in fl.facts if f.kind == "attrstore" and f.target in ("_bindingenergy", "_photonyield")}
     for nm, attr, tgt in (("binding", "eb", "_bindingenergy"), ("yields", "photon_yield", "_photonyield")):
         vals = [(stv[tgt].value, None, None, stv[tgt].line)] if tgt in stv else []
@@ -472,11 +627,21 @@ def _r6(ctx, pkg):
         found = ""
         if vals:
             v = simp(vals[-1][0])
+            if v[0] == "copy":
+                v = v[1]
+            if v[0] == "acc":
+                # the table was filled by a loop of element stores: the dict comprehension it is equal to
+                v = acc_as_comp(fl, v[1]) or v
             found = show(v)[:120]
-            if v[0] == "comp" and v[1] == "dict" and len(v[3]) == 1:
+            shape = v[0] == "comp" and v[1] == "dict" and len(v[3]) == 1
+            if shape:
                 tg, it, ifs = v[3][0]
                 ok = it == ("attr", ("param", "network"), "species") and tuple(ifs) == (("attr", tg, "is_surface"),) and \
                     v[2] == ("tuple", (("attr", tg, "name"), ("attr", tg, attr)))
+            if not shape:
+                # not a table built per species (a helper's result, a merged dict ..): nothing visible is wrong
+                ctx.unrec("R6", f"NetworkConfiguration:{nm}", (CONF, vals[-1][3]), f"the exported {nm} table is not understood as a table over the species: {found}")
+                continue
         ctx.check(ok, "R6", f"NetworkConfiguration:{nm}", (CONF, vals[-1][3] if vals else init.lineno),
                   f"the exported table holds {attr} of every surface species of the network (values set through the API included)",
                   expected=f"{{s.name: s.{attr} for s in network.species if s.is_surface}}", found=found)
@@ -507,3 +672,51 @@ BENIGN = [
      "new": '        if os.path.exists(reaction_file) and not overwrite:\n            logger.warning("Reaction file exists! Stop exporting!")\n            return\n        else:\n            self.write(reaction_file, "naunet")\n'},
     {"name": "reader-line-rstripped", "file": RFILE, "old": 'idx, *rps, a, b, c, lt, ut, rtype, source = react_string.split(",")', "new": 'idx, *rps, a, b, c, lt, ut, rtype, source = react_string.rstrip("\\n").split(",")'},
 ]
+
+# ---- spellings accepted since the round-4 benign sets (each also as a seeded defect written in the new spelling) ----
+_RD_OLD = ('        self.reactants = [\n            self._create_species(r.strip())\n            for r in rps[0:3]\n            if self._create_species(r.strip())\n        ]\n'
+           '        self.products = [\n            self._create_species(p.strip())\n            for p in rps[3:8]\n            if self._create_species(p.strip())\n        ]\n')
+
+
+def _rd_loop(strip, hi):
+    return ('        def named(cols):\n            out = []\n            for col in cols:\n                nm = col' + strip + '\n                if self._create_species(nm):\n'
+            '                    out.append(self._create_species(nm))\n            return out\n\n        self.reactants = named(rps[0:3])\n        self.products = named(rps[3:' + hi + '])\n')
+
+
+_CF_OLD = ('        binding = {s.name: s.eb for s in network.species if s.is_surface}\n        yields = {s.name: s.photon_yield for s in network.species if s.is_surface}\n')
+
+
+def _cf_loop(extra):
+    return ('        binding = {}\n        yields = {}\n        for sp in network.species:\n            if not sp.is_surface' + extra + ':\n                continue\n'
+            '            binding[sp.name] = sp.eb\n            yields[sp.name] = sp.photon_yield\n')
+
+
+_WR_OLD = ('            verbose = ",".join(\n                [\n                    f"{self.idxfromfile:<5}",\n                    *rnames,\n                    *pnames,\n'
+           '                    f"{self.alpha:10.3e}",\n                    f"{self.beta:10.3e}",\n                    f"{self.gamma:10.3e}",\n                    f"{self.temp_min:9.2f}",\n'
+           '                    f"{self.temp_max:9.2f}",\n                    f"{self.reaction_type:>4}",\n                    f"{self.source:>8}",\n                ]\n            )\n\n        elif form == "kida":')
+_WR_NEW = ('            tail = [format(getattr(self, nm), spec) for nm, spec in _TAIL]\n            verbose = format(self.idxfromfile, "<5") + "," + ",".join(rnames + pnames + tail)\n\n        elif form == "kida":')
+_WR_CLS = 'class Reaction(Component):\n    """Class of chemical reactions"""\n'
+
+
+def _wr_table(second, third):
+    return ('_TAIL = (("alpha", "10.3e"), ("' + second + '", "10.3e"), ("' + third + '", "10.3e"), ("temp_min", "9.2f"), ("temp_max", "9.2f"),\n'
+            '         ("reaction_type", ">4"), ("source", ">8"))\n\n\n') + _WR_CLS
+
+
+BENIGN += [
+    {"name": "reader-species-by-local-loop-helper", "file": RFILE, "old": _RD_OLD, "new": _rd_loop(".strip()", "8")},
+    {"name": "config-tables-by-one-loop", "file": CONF, "old": _CF_OLD, "new": _cf_loop("")},
+    {"name": "writer-trailing-columns-table-driven", "edits": [{"file": RFILE, "old": _WR_OLD, "new": _WR_NEW}, {"file": RFILE, "old": _WR_CLS, "new": _wr_table("beta", "gamma")}]},
+]
+MUTANTS += [
+    {"name": "reader-loop-helper-no-strip", "file": RFILE, "old": _RD_OLD, "new": _rd_loop("", "8"), "rules": ["R2"]},
+    {"name": "reader-loop-helper-short-slice", "file": RFILE, "old": _RD_OLD, "new": _rd_loop(".strip()", "7"), "rules": ["R1"]},
+    {"name": "config-loop-user-values-only", "file": CONF, "old": _CF_OLD, "new": _cf_loop(" or not sp._binding_energy"), "rules": ["R6"]},
+    {"name": "writer-table-beta-gamma-swapped", "edits": [{"file": RFILE, "old": _WR_OLD, "new": _WR_NEW}, {"file": RFILE, "old": _WR_CLS, "new": _wr_table("gamma", "beta")}], "rules": ["R1"]},
+]
+MUTANTS.append({"name": "reader-bound-from-two-fields", "file": RFILE, "old": "        self.temp_min = float(lt)\n        self.temp_max = float(ut)\n        self.idxfromfile = int(idx)",
+                "new": "        self.temp_min = min(float(lt), float(ut))\n        self.temp_max = float(ut)\n        self.idxfromfile = int(idx)", "rules": ["R1"]})
+MUTANTS.append({"name": "content-drops-falsy-modifiers", "file": CONF, "old": "            str(key): value for key, value in self._ratemodifier.items()\n",
+                "new": "            str(key): value for key, value in self._ratemodifier.items() if value\n", "rules": ["R10"]})
+BENIGN.append({"name": "content-tables-copied", "file": CONF, "old": '        chem_species["photon_yield"] = self._photonyield\n',
+               "new": '        chem_species["photon_yield"] = dict(self._photonyield)\n'})
